@@ -24,6 +24,18 @@ func TermOn(v ssa.Value, phi map[*ssa.Phi]ssa.Value) string {
 	return termDepth(v, 0, phi)
 }
 
+// TermSubst renders the term with phis resolved along a path and inlined callee parameters replaced by their arguments.
+func TermSubst(v ssa.Value, phi map[*ssa.Phi]ssa.Value, params map[*ssa.Parameter]ssa.Value) string {
+	if len(params) == 0 {
+		return termDepth(v, 0, phi)
+	}
+	paramSubst = params
+	defer func() { paramSubst = nil }()
+	return termDepth(v, 0, phi)
+}
+
+var paramSubst map[*ssa.Parameter]ssa.Value
+
 func fieldName(t types.Type, idx int) string {
 	if p, ok := t.Underlying().(*types.Pointer); ok {
 		t = p.Elem()
@@ -61,6 +73,11 @@ func termDepth(v ssa.Value, d int, phi map[*ssa.Phi]ssa.Value) string {
 	}
 	switch x := v.(type) {
 	case *ssa.Parameter:
+		if paramSubst != nil {
+			if r, ok := paramSubst[x]; ok && r != ssa.Value(x) {
+				return termDepth(r, d+1, phi)
+			}
+		}
 		for i, p := range x.Parent().Params {
 			if p == x {
 				return fmt.Sprintf("P%d", i)
